@@ -129,7 +129,7 @@ func (g *tagGen) build(n *model.Node, ns []*namespace, depth int) *dstruct {
 			default:
 				name := ""
 				switch q := g.r.Intn(8); {
-				case q < 4 && !ns[x].used[key]:
+				case q < 4 && !ns[x].used[key] && key != "":
 					name = key
 				case q == 4:
 					// another key of the small pool, if it is free here
